@@ -236,10 +236,33 @@ static void c05_vars (long caseidx)
   }
 }
 
+/* every opcode with an x2/x4 prefix and operands of exactly the multiplied sizes, also where those exceed the 8 bytes a variable may have:
+ * the compiler has to refuse what it cannot handle, not assert */
+static void c05_prefix (long caseidx, int opi, int mult)
+{
+  const RefOp *op = &ref_ops[opi]; int ti, k;
+  for (ti = 0; ti < n_all_targets; ti++) {
+    OrcProgram *p = orc_program_new (); int d[2] = { 0, 0 }, s[4] = { 0, 0, 0, 0 }; OrcCompileResult res;
+    orc_program_set_name (p, "prefixprog");
+    for (k = 0; k < 2; k++) if (op->dsz[k]) d[k] = (op->flags & RF_ACC) ? orc_program_add_accumulator (p, op->dsz[k] * mult, k ? "a2" : "a1") : orc_program_add_destination (p, op->dsz[k] * mult, k ? "d2" : "d1");
+    for (k = 0; k < 4; k++) if (op->ssz[k]) {
+      char nm[8]; snprintf (nm, sizeof nm, "s%d", k + 1);
+      if ((op->flags & RF_SCALAR) && k >= 1) s[k] = orc_program_add_constant (p, op->ssz[k], 1, nm);
+      else if (op->kind == RK_LOADP) s[k] = orc_program_add_parameter (p, op->ssz[k], nm);
+      else s[k] = orc_program_add_source (p, op->ssz[k] * mult, nm);
+    }
+    orc_program_append_2 (p, op->name, mult == 2 ? ORC_INSTRUCTION_FLAG_X2 : ORC_INSTRUCTION_FLAG_X4, d[0], op->dsz[1] ? d[1] : s[0], op->dsz[1] ? s[0] : s[1], op->dsz[1] ? s[1] : s[2]);
+    res = orc_program_compile_full (p, all_targets[ti], orc_target_get_default_flags (all_targets[ti]));
+    c05_check_result (p, res, all_targets[ti], 0, NULL, caseidx, 0);
+    vh_count ("c05.prefix_forms", 1); vh_count ("c05.compiles", 1);
+    orc_program_free (p);
+  }
+}
+
 static void mode_c05 (void)
 {
-  long c, total, N1 = n_single, Nr = vh_args.thorough ? 120000 : 12000, Nm = vh_args.thorough ? 120000 : 12000, Nl = vh_args.thorough ? 1200 : 200;
-  total = N1 + Nr + Nm + Nl + 1;
+  long c, total, N1 = n_single, Nr = vh_args.thorough ? 120000 : 12000, Nm = vh_args.thorough ? 120000 : 12000, Nl = vh_args.thorough ? 1200 : 200, Np = 2L * ref_n_ops;
+  total = N1 + Nr + Nm + Nl + 1 + Np;
   for (c = 0; c < total; c++) {
     ProgSpec ps; VhRng r; char desc[100];
     if (!vh_my_case (c)) continue;
@@ -257,7 +280,8 @@ static void mode_c05 (void)
       snprintf (desc, sizeof desc, "c05 mutated %s", nm); vh_progress (c, desc);
       if (ok) { c05_one (&ps, c, &r, 0); vh_count ("c05.mutated", 1); }
     } else if (c < N1 + Nr + Nm + Nl) { snprintf (desc, sizeof desc, "c05 long"); vh_progress (c, desc); c05_long (c, &r); }
-    else { vh_progress (c, "c05 manyvars"); c05_vars (c); }
+    else if (c == N1 + Nr + Nm + Nl) { vh_progress (c, "c05 manyvars"); c05_vars (c); }
+    else { long k = c - (N1 + Nr + Nm + Nl + 1); snprintf (desc, sizeof desc, "c05 prefix x%d %s", (int) (k & 1) ? 4 : 2, ref_ops[k >> 1].name); vh_progress (c, desc); c05_prefix (c, (int) (k >> 1), (k & 1) ? 4 : 2); }
     if ((c & 63) == 0) vh_flush ();
   }
 }
@@ -466,6 +490,20 @@ static void c14_run (const char *text, size_t len, long caseidx, const char *kin
   }
   free (progs);
   if (errs) orc_parse_error_freev (errs);
+  /* the older entry point that renders the error records into a log string */
+  if ((caseidx & 3) == 0) {
+    static char marker[] = ""; char *log = marker; OrcProgram **p2 = NULL; int n2, nl2 = 0; const char *q;
+    n2 = orc_parse_full (copy, &p2, &log);
+    vh_count ("c14.parse_full", 1);
+    if (n2 != np) { snprintf (what, sizeof what, "orc_parse_full returned %d programs, orc_parse_code %d", n2, np); spec_viol ("C14", "c14", "parse-full-differs", what, NULL, caseidx, NULL); }
+    if (ne > 0) {
+      if (!log || log == marker) spec_viol ("C14", "c14", "parse-full-no-log", "orc_parse_full produced no log although orc_parse_code reports errors", NULL, caseidx, NULL);
+      else { for (q = log; *q; q++) if (*q == '\n') nl2++; if (nl2 < ne) { snprintf (what, sizeof what, "orc_parse_full log has %d lines for %d error records", nl2, ne); spec_viol ("C14", "c14", "parse-full-log-short", what, NULL, caseidx, NULL); } }
+    }
+    if (log && log != marker) free (log);
+    for (i = 0; i < n2; i++) if (p2[i]) orc_program_free (p2[i]);
+    free (p2);
+  }
   free (copy);
 }
 
@@ -480,7 +518,7 @@ static void mode_c14 (void)
     snprintf (desc, sizeof desc, "c14 case kind %d", kind); vh_progress (c, desc);
     if (kind < 8) {
       /* directed faults with a known line */
-      int which = (int) vh_randn (&r, 8), nl;
+      int which = (int) vh_randn (&r, 10), nl;
       GenPrintStyle st = { 0 }; char nm[32]; snprintf (nm, sizeof nm, "f%ld", c); gen_init (&ps, nm);
       if (!gen_random (&ps, &r, GP_INT | GP_ACC, 2 + (int) vh_randn (&r, 5))) continue;
       st.spaces_after_comma = 1;
@@ -492,6 +530,18 @@ static void mode_c14 (void)
         case 4: { int k; vh_buf_printf (&b, ".function big\n.dest 2 d1\n.source 2 s1\n.temp 2 t1\ncopyw t1, s1\n"); for (k = 0; k < 101 + (int) vh_randn (&r, 40); k++) vh_buf_printf (&b, "addw t1, t1, s1\n"); vh_buf_printf (&b, "copyw d1, t1\n"); c14_run (b.p, b.len, c, "too-many-instructions", -1); break; }
         case 5: { int k; vh_buf_printf (&b, ".function vars\n.dest 1 d1\n"); for (k = 0; k < 9 + (int) vh_randn (&r, 12); k++) vh_buf_printf (&b, ".source 1 s%d\n", k + 1); for (k = 0; k < 17 + (int) vh_randn (&r, 10); k++) vh_buf_printf (&b, ".temp 1 t%d\n", k + 1); vh_buf_printf (&b, "copyb d1, s1\n"); c14_run (b.p, b.len, c, "too-many-variables", -1); break; }
         case 6: gen_print_orc (&ps, &b, &st, NULL); nl = count_lines (b.p); vh_buf_printf (&b, "addw d1, s1, %s\n", vh_chance (&r, 1, 2) ? "1x" : "--1"); c14_run (b.p, b.len, c, "bad-number-operand", -1); break;
+        case 8: case 9: {
+          /* a directive line with exactly K tokens (1..20; the tokeniser holds 16), ending in a keyword that wants a value */
+          static const char *dirs[] = { ".source", ".dest", ".accumulator", ".temp", ".const", ".param", ".floatparam", ".longparam", ".doubleparam", ".n", ".m", ".flags", ".init", ".function" };
+          static const char *fill[] = { "1", "2", "4", "8", "x", "s1", "align", "mult", "min", "max", "2d", "16", "0x10" };
+          static const char *last[] = { "align", "mult", "min", "max", "2d", "8", "name" };
+          int K = 1 + (int) vh_randn (&r, 20), k;
+          gen_print_orc (&ps, &b, &st, NULL);
+          vh_buf_printf (&b, "%s", dirs[vh_randn (&r, 14)]);
+          for (k = 1; k < K - 1; k++) vh_buf_printf (&b, " %s", k == 1 && vh_chance (&r, 2, 3) ? "2" : k == 2 && vh_chance (&r, 2, 3) ? "v9" : fill[vh_randn (&r, 13)]);
+          if (K > 1) vh_buf_printf (&b, " %s", last[vh_randn (&r, 7)]);
+          vh_buf_printf (&b, "\n");
+          c14_run (b.p, b.len, c, "token-count", -1); break; }
         default: gen_print_orc (&ps, &b, &st, NULL); nl = count_lines (b.p); vh_buf_printf (&b, ".bogusdirective 1 2 3\n"); c14_run (b.p, b.len, c, "unknown-directive", nl); break;
       }
     } else if (kind < 70) {
@@ -650,7 +700,8 @@ static void c16_sequence (VhRng *r, long caseidx, int steps)
     switch (op) {
       case 0: case 1:
         if (!p) { char nm[32]; snprintf (nm, sizeof nm, "life_%ld_%d", caseidx, s); gen_init (&ps, nm);
-          have_spec = gen_random (&ps, r, GP_INT | GP_ACC | GP_FLOAT, 1 + (int) vh_randn (r, 6)) && !program_uses_special_or_big (&ps);
+          /* mostly small programs; one in six is long enough to need compiler variable slots beyond the 64 user-visible ones */
+          have_spec = gen_random (&ps, r, GP_INT | GP_ACC | GP_FLOAT, vh_chance (r, 1, 6) ? 12 + (int) vh_randn (r, 28) : 1 + (int) vh_randn (r, 6)) && !program_uses_special_or_big (&ps);
           if (have_spec) { p = gen_build (&ps); compiled = 0; vh_count ("c16.new", 1); } }
         break;
       case 2: case 3:
@@ -764,6 +815,31 @@ static void c17_history (VhRng *r)
   while (nk) orc_program_free (keep[--nk]);
 }
 
+/* native run of a compiled program on fixed inputs through a given (possibly already used) executor; returns a checksum of the destinations */
+static uint64_t tiny_native (OrcProgram *p, OrcExecutor *ex, int n, int off)
+{
+  static uint8_t bufs[ORC_N_VARIABLES][8192];
+  uint64_t h = 1469598103934665603ULL; int i, j;
+  orc_executor_set_n (ex, n);
+  if (p->is_2d) orc_executor_set_m (ex, 2);
+  for (i = 0; i < ORC_N_VARIABLES; i++) {
+    OrcVariable *v = &p->vars[i];
+    if (!v->size) continue;
+    if (v->vartype == ORC_VAR_TYPE_SRC || v->vartype == ORC_VAR_TYPE_DEST) {
+      for (j = 0; j < 8192; j++) bufs[i][j] = (uint8_t) (j * 11 + i * 5 + 3);
+      orc_executor_set_array (ex, i, bufs[i] + 2048 + off * v->size);
+      if (p->is_2d) orc_executor_set_stride (ex, i, 2048);
+    } else if (v->vartype == ORC_VAR_TYPE_PARAM) {
+      if (v->size == 8) orc_executor_set_param_int64 (ex, i, 3); else orc_executor_set_param (ex, i, 3);
+    }
+  }
+  orc_executor_run (ex);
+  for (i = 0; i < ORC_N_VARIABLES; i++) if (p->vars[i].size && p->vars[i].vartype == ORC_VAR_TYPE_DEST)
+    for (j = 0; j < 8192; j++) h = (h ^ bufs[i][j]) * 1099511628211ULL;
+  for (i = 0; i < 4; i++) h = (h ^ (uint32_t) ex->accumulators[i]) * 1099511628211ULL;
+  return h;
+}
+
 static void c17_one (ProgSpec *ps, long caseidx, VhRng *r)
 {
   int ti;
@@ -790,6 +866,24 @@ static void c17_one (ProgSpec *ps, long caseidx, VhRng *r)
       char sg[120]; snprintf (sg, sizeof sg, "reset-recompile|%s", t->name);
       spec_viol ("C17", "c17", sg, what, ps, caseidx, NULL);
     }
+    /* running the same code on the same inputs gives the same results whatever the executor did before */
+    { int hinted = 0, vi; for (vi = 0; vi < ps->nvars; vi++) if (ps->vars[vi].align > ps->vars[vi].size) hinted = 1;   /* declared alignments must be honoured by the caller */
+      if (hinted || ps->n_mult || ps->n_min || ps->n_max || ps->const_n) goto no_repeat; }
+    if (is_x86 (t) && ORC_COMPILE_RESULT_IS_SUCCESSFUL (res) && p2->orccode && !program_uses_special_or_big (ps)) {
+      OrcExecutor *ex = orc_executor_new (p2); uint64_t h1, h2, h3; int nsmall = 1 + (int) (caseidx % 5);
+      h1 = tiny_native (p2, ex, nsmall, 1);
+      (void) tiny_native (p2, ex, 100 + (int) (caseidx % 7), 0);
+      h2 = tiny_native (p2, ex, nsmall, 1);
+      h3 = tiny_native (p2, ex, nsmall, 1);
+      orc_executor_free (ex);
+      vh_count ("c17.repeat_runs", 1);
+      if (h1 != h2 || h2 != h3) {
+        char sg[120]; snprintf (sg, sizeof sg, "repeat-run|%s", t->name);
+        snprintf (what, sizeof what, "same code, same inputs (n=%d, arrays one element past alignment): result differs after the executor was used for a larger n (checksums %016llx %016llx %016llx)", nsmall, (unsigned long long) h1, (unsigned long long) h2, (unsigned long long) h3);
+        spec_viol ("C17", "c17", sg, what, ps, caseidx, NULL);
+      }
+    }
+no_repeat:
     vh_countf (1, "c17.target.%s", t->name);
     snap_free (&a); snap_free (&b); snap_free (&c);
     orc_program_free (p1); orc_program_free (p2);
@@ -890,6 +984,7 @@ static void mode_c20 (void)
       OrcStaticOpcode *o = &sets[si][k]; int id = total_ops + k;
       snprintf (o->name, sizeof o->name, "%s%d", base_names[(id + scen) % 8], id);
       if (si == 0 && k == 0 && (scen & 4)) snprintf (o->name, sizeof o->name, "add");    /* a name that is a prefix of built-ins */
+      if (si == 0 && k == 1 && (scen & 1)) snprintf (o->name, sizeof o->name, "addw");   /* a name a built-in already has: the built-in keeps it */
       o->dest_size[0] = 2; o->src_size[0] = 2; o->src_size[1] = 2; o->emulateN = ext_emus[id & 7];
     }
     /* set names: plain, extending a built-in set's name ("sys..."), and extending an earlier application set's name */
@@ -924,6 +1019,11 @@ static void mode_c20 (void)
       orc_program_set_name (p, "extprog");
       orc_program_append (p, "addw", t1, s1, s2);          /* built-in mixed in */
       orc_program_append (p, sets[si][k].name, dd, t1, s2);
+      if (!strcmp (sets[si][k].name, "addw")) {
+        /* shadowing attempt: programs (ours below and the built-in ones compared before/after) must keep getting the built-in addw */
+        if (orc_opcode_find_by_name ("addw") == &sets[si][k]) spec_viol ("C20", "c20", "builtin-shadowed", "orc_opcode_find_by_name(\"addw\") returns the application's opcode of the same name instead of the built-in one", NULL, scen, NULL);
+        orc_program_free (p); continue;
+      }
       if (orc_opcode_find_by_name (sets[si][k].name) != &sets[si][k] && strcmp (sets[si][k].name, "add")) {
         snprintf (what, sizeof what, "orc_opcode_find_by_name(%s) does not return the registered opcode", sets[si][k].name);
         spec_viol ("C20", "c20", "lookup", what, NULL, scen, NULL);
